@@ -9,6 +9,10 @@ import (
 
 // Phrase succeeds if the difference list of s0-s satisfies the grammar rule of grBody.
 func Phrase(vm *VM, grBody, s0, s Term, k Cont, env *Env) *Promise {
+	if _, ok := env.Resolve(grBody).(Variable); ok {
+		// dcgBody translates a variable body to phrase(V, S0, S): calling that here would loop forever.
+		return Error(InstantiationError(env))
+	}
 	goal, err := dcgBody(grBody, s0, s, env)
 	if err != nil {
 		return Error(err)
